@@ -190,8 +190,13 @@ class Renderer:
         """
 
         self._set_section(section)
+        if self.was_padded and rrset.rdtype == dns.rdatatype.TSIG:
+            # The padding was computed for an uncompressed TSIG owner name.
+            compress = None
+        else:
+            compress = self.compress
         with self._track_size():
-            n = rrset.to_wire(self.output, self.compress, self.origin, **kw)
+            n = rrset.to_wire(self.output, compress, self.origin, **kw)
         self.counts[section] += n
 
     def add_rdataset(self, section, name, rdataset, **kw):
